@@ -145,15 +145,19 @@ def buildFeature (locusName : Str) (f : Feature) : Str :=
   featureName ++ tab ++ featureSource ++ tab ++ featureType ++ tab ++ featureStart ++ tab ++ featureEnd ++ tab
     ++ f.score ++ tab ++ f.strand ++ tab ++ f.phase ++ tab ++ featureAttributes
 
-/-- the FASTA loop: `i` letters have been written; a newline follows letter number `j = i+1`
-when `j % 70 == 0` and `j != RegionEnd` -/
-def wrapSeq (regionEnd : Int) : Nat → Str → Str
+/-- the FASTA loop with its line-break test as a parameter: `i` letters have been written; a
+newline follows letter number `letterIndex = i+1` when `brk letterIndex` -/
+def wrapWith (brk : Nat → Bool) : Nat → Str → Str
   | _, [] => []
   | i, letter :: rest =>
     let letterIndex := i + 1
-    if letterIndex % 70 = 0 ∧ (letterIndex : Int) ≠ regionEnd then
-      letter :: '\n' :: wrapSeq regionEnd letterIndex rest
-    else letter :: wrapSeq regionEnd letterIndex rest
+    if brk letterIndex then letter :: '\n' :: wrapWith brk letterIndex rest
+    else letter :: wrapWith brk letterIndex rest
+
+/-- the test of `Build`: `letterIndex%70 == 0 && letterIndex != 0 && letterIndex != RegionEnd`
+(`letterIndex` has been incremented, so it is never 0) -/
+def buildBreak (regionEnd : Int) (letterIndex : Nat) : Bool :=
+  letterIndex % 70 == 0 && letterIndex != 0 && (letterIndex : Int) != regionEnd
 
 /-- the name written into the `##sequence-region` line -/
 def regionName (x : Gff) : Str :=
@@ -185,9 +189,12 @@ def unlines : List Str → Str
   | [] => []
   | l :: ls => l ++ '\n' :: unlines ls
 
+/-- `gff.Build` with an arbitrary line-break test in the FASTA loop -/
+def buildWith (brk : Nat → Bool) (x : Gff) : Str :=
+  unlines (headLines x) ++ wrapWith brk 0 x.seq ++ ['\n']
+
 /-- `gff.Build` -/
-def build (x : Gff) : Str :=
-  unlines (headLines x) ++ wrapSeq x.regionEnd 0 x.seq ++ ['\n']
+def build (x : Gff) : Str := buildWith (buildBreak x.regionEnd) x
 
 /-! ### Feature.GetSequence on a parsed feature -/
 
